@@ -13,6 +13,10 @@ pub mod c09;
 pub mod c12;
 pub mod c14;
 pub mod c15;
+pub mod c16;
+pub mod c17;
+pub mod c18;
+pub mod c20;
 
 pub struct PropMeta {
     pub id: &'static str,
@@ -35,6 +39,10 @@ pub fn all() -> Vec<PropMeta> {
         PropMeta { id: "C12", rule: c12::RULE, assumptions: c12::ASSUMPTIONS, subs: c12::subs },
         PropMeta { id: "C14", rule: c14::RULE, assumptions: c14::ASSUMPTIONS, subs: c14::subs },
         PropMeta { id: "C15", rule: c15::RULE, assumptions: c15::ASSUMPTIONS, subs: c15::subs },
+        PropMeta { id: "C16", rule: c16::RULE, assumptions: c16::ASSUMPTIONS, subs: c16::subs },
+        PropMeta { id: "C17", rule: c17::RULE, assumptions: c17::ASSUMPTIONS, subs: c17::subs },
+        PropMeta { id: "C18", rule: c18::RULE, assumptions: c18::ASSUMPTIONS, subs: c18::subs },
+        PropMeta { id: "C20", rule: c20::RULE, assumptions: c20::ASSUMPTIONS, subs: c20::subs },
     ]
 }
 
